@@ -9,7 +9,8 @@ use crate::svc::*;
 use serde_json::json;
 
 pub fn gen_msg(rng: &mut Rng, i: usize) -> Msg {
-    let size = *rng.pick(&[0usize, 0, 1, 3, 5, 17, 100, 1000, 5000]);
+    // now and then a message larger than two default yield thresholds and one HTTP/2 window
+    let size = if rng.chance(1, 30) { *rng.pick(&[70_000usize, 140_000]) } else { *rng.pick(&[0usize, 0, 1, 3, 5, 17, 100, 1000, 5000]) };
     Msg { data: rng.payload(size), seq: if rng.chance(1, 6) { 0 } else { i as u64 + 1 }, tag: if rng.chance(1, 4) { rng.unicode(6) } else { String::new() } }
 }
 
